@@ -10,6 +10,9 @@ Decided:
               records the count when none was declared
   C15.guard   the partition-order search is clamped to what the partition buffer can hold; exact_div guards a zero divisor
   C15.panic   engine B over the constructors and Options methods (and everything they reach)
+  C15.cap     every seek table built by the encoder (constructor placeholder included) is capped at MAX_POINTS
+  (C15.guard also: every place that fills an audio::Frame has established a non-empty block; C15.len also: the declared
+   total is converted to channel-independent samples by exact division)
 Not decided: that every accepted configuration produces a working writer for every input (see C01).
 """
 from rules.common import *
